@@ -48,6 +48,9 @@ type vsK8s struct {
 	// existGate, if set, is called (without the lock) after PodExist has determined its
 	// answer and before it returns it (a slow API server: the answer may be stale)
 	existGate func(key string)
+	// localErrs: that many following GetLocalPods calls fail; localCalls counts all of them
+	localErrs  int
+	localCalls int
 }
 
 func vsNewK8s() *vsK8s {
@@ -59,6 +62,11 @@ func vsKey(ns, name string) string { return ns + "/" + name }
 func (k *vsK8s) GetLocalPods() ([]*daemon.PodInfo, error) {
 	k.mu.Lock()
 	defer k.mu.Unlock()
+	k.localCalls++
+	if k.localErrs > 0 {
+		k.localErrs--
+		return nil, fmt.Errorf("api server unavailable")
+	}
 	var keys []string
 	for key := range k.pods {
 		keys = append(keys, key)
